@@ -769,6 +769,9 @@ func fieldByName(t *types.Named, name string) *types.Var {
 			return st.Field(i)
 		}
 	}
+	if i := fieldByHint(t, name); i >= 0 {
+		return st.Field(i) // renamed: the field that has the type this one had (fieldhints.go)
+	}
 	return nil
 }
 
